@@ -1436,9 +1436,7 @@ func (c *Ctx) checkSiteAsserts(st *State, fr *Frame, ins ssa.Instruction) {
 		}
 		// A site assertion is checked, not assumed: what follows it must not lean on a claim that
 		// may be false (a listed finding, for one, would make the rest of its path vacuous).
-		if t.S != "true" {
-			c.emit(st, fr, ins, "site", label, t, cl.Text, false)
-		}
+		c.emit(st, fr, ins, "site", label, t, cl.Text, false)
 	}
 }
 
